@@ -147,6 +147,19 @@ func suiteDiffReport(c *Ctx) error {
 			newSrc += shapeFn(fmt.Sprintf("Form%c", 'X'+k), k)
 			plan = append(plan, plannedFn{fmt.Sprintf("Shape%c", 'A'+k), fmt.Sprintf("Form%c", 'X'+k), "renamed-sameshape"})
 		}
+		// renames among functions of ONE shape with DIFFERENT bodies (small constants, kept by the policy):
+		// every candidate pair scores 1.0, only the fingerprint tells which new function is which old one;
+		// the new names are handed out in reverse so that coupling in name order would cross them
+		nTune := 2 + rr.Intn(2)
+		for k := 0; k < nTune; k++ {
+			body := func(name string) string {
+				return fmt.Sprintf("func %s(a int, xs []int) int {\n\tt := a * %d\n\tfor i := 0; i < len(xs); i++ {\n\t\tif xs[i] > %d {\n\t\t\tt += xs[i] + %d\n\t\t}\n\t}\n\treturn t - %d\n}\n\n", name, 2+k, 1+k, 3+2*k, 5+k)
+			}
+			oldName, newName := fmt.Sprintf("Tune%c", 'A'+k), fmt.Sprintf("Adjust%c", 'Z'-k)
+			oldSrc += body(oldName)
+			newSrc += body(newName)
+			plan = append(plan, plannedFn{oldName, newName, "renamed-unique-body"})
+		}
 		// function literals in package-level variable initialisers (closures of the synthetic init)
 		{
 			k := 3 + rr.Intn(5)
@@ -396,6 +409,32 @@ func suiteDiffReport(c *Ctx) error {
 				nSameFound++
 			}
 		}
+		// a renamed function whose body is unique is paired with ITS new version, as a pure rename
+		for _, p := range plan {
+			if p.kind != "renamed-unique-body" {
+				continue
+			}
+			ok := false
+			for _, m := range out.TopologyMatches {
+				if m.OldFunction == p.oldName && m.NewFunction == p.newName && !m.MatchedByName {
+					ok = true
+				}
+			}
+			if !ok {
+				got := "nothing"
+				for _, m := range out.TopologyMatches {
+					if m.OldFunction == p.oldName {
+						got = m.NewFunction
+					}
+				}
+				viol("C19", "C19/renamed-function-paired-with-a-same-shaped-neighbour", fmt.Sprintf("%s was only renamed to %s (same body, same fingerprint) but is paired with %s", p.oldName, p.newName, got))
+			}
+			for _, f := range out.Functions {
+				if f.Function == p.oldName+" → "+p.newName && !f.FingerprintMatch {
+					viol("C19", "C19/pure-rename-reported-as-modified", fmt.Sprintf("%s → %s: fingerprint_match false", p.oldName, p.newName))
+				}
+			}
+		}
 		if nSameFound != nSame {
 			viol("C19", "C19/same-shape-renames-not-all-paired", fmt.Sprintf("%d of %d same-shape renames paired", nSameFound, nSame))
 		}
@@ -412,7 +451,7 @@ func suiteDiffReport(c *Ctx) error {
 					}
 				}
 				ts = append(ts, tp)
-				p = append(p, hx(x.FunctionName)+"~"+t)
+				p = append(p, hx(x.FunctionName)+"~"+t+"~"+hx(x.Fingerprint))
 			}
 			return strings.Join(p, "|"), ts
 		}
